@@ -77,7 +77,7 @@ impl<'a> Gen<'a> {
             9 => format!("NOT {}", self.operand(d)),
             10 => format!("-{}", self.operand(d)),
             11 => format!("({})", self.expr(d)),
-            12 => format!("{}[{}]", self.var(), self.expr(d)),
+            12 => format!("{}[{}]", self.indexable(d), self.expr(d)),
             13 => {
                 let n = self.rng.below(4);
                 let items: Vec<String> = (0..n).map(|_| self.expr(d)).collect();
@@ -86,8 +86,19 @@ impl<'a> Gen<'a> {
             14 | 15 => self.call(d),
             16 => format!("({} <- {})", self.var(), self.expr(d)),
             17 => format!("PROBE({}, {})", self.rng.below(100), self.expr(d)),
-            18 => format!("({}[{}] <- {})", self.var(), self.expr(d), self.expr(d)),
+            18 => format!("({}[{}] <- {})", self.indexable(d), self.expr(d), self.expr(d)),
             _ => self.literal(),
+        }
+    }
+
+    /// what is indexed: mostly a variable, sometimes an expression with an effect of its own
+    pub fn indexable(&mut self, depth: usize) -> String {
+        match self.rng.below(6) {
+            0 => format!("PROBE({}, {})", self.rng.below(100), self.var()),
+            1 => format!("({} <- [5, 6, 7])", self.var()),
+            2 => "[10, 20, 30]".to_string(),
+            3 if depth < self.depth_limit => self.call(depth + 1),
+            _ => self.var(),
         }
     }
 
@@ -302,6 +313,10 @@ pub const EXEMPLARS: &[(&str, &str)] = &[
     ("l1", "[1]"),
     ("lnest", "[[1], \"a\"]"),
     ("obj", "MAP()"),
+    // non-zero numbers below machine epsilon: truthy, != 0 only beyond the language's tolerance
+    ("tiny", "(0.1 + 0.2 - 0.3)"),
+    ("negtiny", "(0.3 - 0.2 - 0.1)"),
+    ("denormal", "0.000000000000000000000000000000000000000000000000000000000000000000000000000000000000000000000000000000000000000000000000000000000000000000000000000000000000000000000000000000000000000000000000000000000000000000000000000000000000000000000000000000000000000000000000000000000000000000000000000000000000000000000000005"),
 ];
 
 pub fn exemplar_prelude() -> String {
